@@ -36,6 +36,14 @@ pub fn num(s: &str) -> u64 {
 /// case; a panic inside `f` is reported as the result `PANIC`.
 pub fn serve<F: Fn(&[&str]) -> String + std::panic::RefUnwindSafe>(f: F) {
     std::panic::set_hook(Box::new(|info| { if std::env::var("VERIF_PANIC_MSG").is_ok() { eprintln!("PANIC-MSG: {info}"); } }));
+    // one command given as process arguments: run it and exit (used where the process is traced or killed)
+    let args: Vec<String> = std::env::args().skip(1).collect();
+    if !args.is_empty() {
+        let toks: Vec<&str> = args.iter().map(|s| s.as_str()).collect();
+        let s = std::panic::catch_unwind(|| f(&toks)).unwrap_or("PANIC".to_string());
+        println!("{}", s);
+        return;
+    }
     let stdin = io::stdin();
     let stdout = io::stdout();
     let mut out = io::BufWriter::new(stdout.lock());
